@@ -532,7 +532,21 @@ pub fn kcall(id: CodecId, k: usize, st: St, req: &KReq) -> Option<R<KRes>> {
         (MDna, St::U128) => arms!(kgen, MDnaC, u128, k, req, [1, 2, 15, 16, 17, 31, 32]),
         (MIupac, St::U128) => arms!(kgen, MIupacC, u128, k, req, [1, 2, 12, 13, 14, 24, 25]),
         (Degen, St::U128) => arms!(kgen, DegenC, u128, k, req, [1, 2, 63, 64, 65, 127, 128]),
-        (Tri, _) | (Sept, _) | (Oct, _) => None,
+        (Tri, St::Usize) => arms!(kgen, TriC, usize, k, req, [1, 2, 3, 10, 20, 21]),
+        (Tri, St::U64) => arms!(kgen, TriC, u64, k, req, [1, 2, 21]),
+        (Tri, St::U128) => arms!(kgen, TriC, u128, k, req, [1, 2, 21, 22, 42]),
+        (Sept, St::Usize) => arms!(kgen, SeptC, usize, k, req, [1, 2, 8, 9]),
+        (Sept, St::U64) => arms!(kgen, SeptC, u64, k, req, [1, 9]),
+        (Sept, St::U128) => arms!(kgen, SeptC, u128, k, req, [1, 9, 10, 18]),
+        (Oct, St::Usize) => arms!(kgen, OctC, usize, k, req, [1, 2, 7, 8]),
+        (Oct, St::U64) => arms!(kgen, OctC, u64, k, req, [1, 8]),
+        (Oct, St::U128) => arms!(kgen, OctC, u128, k, req, [1, 8, 9, 16]),
+        (Duo, St::Usize) => arms!(kgen, DuoC, usize, k, req, [1, 2, 3, 4, 5, 15, 16, 17, 31, 32]),
+        (Duo, St::U64) => arms!(kgen, DuoC, u64, k, req, [1, 2, 16, 31, 32]),
+        (Duo, St::U128) => arms!(kgen, DuoC, u128, k, req, [1, 2, 32, 33, 63, 64]),
+        (Uno, St::Usize) => arms!(kgen, UnoC, usize, k, req, [1, 2, 7, 8, 9, 10, 16, 33, 63, 64]),
+        (Uno, St::U64) => arms!(kgen, UnoC, u64, k, req, [1, 2, 8, 64]),
+        (Uno, St::U128) => arms!(kgen, UnoC, u128, k, req, [1, 9, 64, 65, 128]),
     }
 }
 
@@ -560,7 +574,22 @@ pub fn kcall_ord(id: CodecId, k: usize, st: St, req: &KReq) -> Option<R<KRes>> {
         (Text, St::U128) => arms!(kord, TextC, u128, k, req, [1, 2, 3, 4, 5, 6, 7, 8, 9, 10, 11, 12, 13, 14, 15, 16]),
         (MDna, St::U128) => arms!(kord, MDnaC, u128, k, req, [1, 2, 15, 16, 17, 31, 32]),
         (MIupac, St::U128) => arms!(kord, MIupacC, u128, k, req, [1, 2, 12, 13, 14, 24, 25]),
-        (Iupac, _) | (Amino, _) | (Tri, _) | (Sept, _) | (Oct, _) => None,
+        (Iupac, _) | (Amino, _) => None,
+        (Tri, St::Usize) => arms!(kord, TriC, usize, k, req, [1, 2, 3, 10, 20, 21]),
+        (Tri, St::U64) => arms!(kord, TriC, u64, k, req, [1, 2, 21]),
+        (Tri, St::U128) => arms!(kord, TriC, u128, k, req, [1, 2, 21, 22, 42]),
+        (Sept, St::Usize) => arms!(kord, SeptC, usize, k, req, [1, 2, 8, 9]),
+        (Sept, St::U64) => arms!(kord, SeptC, u64, k, req, [1, 9]),
+        (Sept, St::U128) => arms!(kord, SeptC, u128, k, req, [1, 9, 10, 18]),
+        (Oct, St::Usize) => arms!(kord, OctC, usize, k, req, [1, 2, 7, 8]),
+        (Oct, St::U64) => arms!(kord, OctC, u64, k, req, [1, 8]),
+        (Oct, St::U128) => arms!(kord, OctC, u128, k, req, [1, 8, 9, 16]),
+        (Duo, St::Usize) => arms!(kord, DuoC, usize, k, req, [1, 2, 3, 4, 5, 15, 16, 17, 31, 32]),
+        (Duo, St::U64) => arms!(kord, DuoC, u64, k, req, [1, 2, 16, 31, 32]),
+        (Duo, St::U128) => arms!(kord, DuoC, u128, k, req, [1, 2, 32, 33, 63, 64]),
+        (Uno, St::Usize) => arms!(kord, UnoC, usize, k, req, [1, 2, 7, 8, 9, 10, 16, 33, 63, 64]),
+        (Uno, St::U64) => arms!(kord, UnoC, u64, k, req, [1, 2, 8, 64]),
+        (Uno, St::U128) => arms!(kord, UnoC, u128, k, req, [1, 9, 64, 65, 128]),
         (Degen, St::U128) => arms!(kord, DegenC, u128, k, req, [1, 2, 63, 64, 65, 127, 128]),
     }
 }
@@ -577,7 +606,11 @@ pub fn kcall_usize(id: CodecId, k: usize, req: &UReq) -> Option<R<URes>> {
         Degen => arms2!(
             kusize, DegenC, k,
             [1, 2, 3, 4, 5, 6, 7, 8, 9, 10, 11, 12, 13, 14, 15, 16, 17, 18, 19, 20, 21, 22, 23, 24, 25, 26, 27, 28, 29, 30, 31, 32, 33, 34, 35, 36, 37, 38, 39, 40, 41, 42, 43, 44, 45, 46, 47, 48, 49, 50, 51, 52, 53, 54, 55, 56, 57, 58, 59, 60, 61, 62, 63, 64], (req)),
-        Tri | Sept | Oct => None,
+        Tri => arms2!(kusize, TriC, k, [1, 2, 3, 10, 20, 21], (req)),
+        Sept => arms2!(kusize, SeptC, k, [1, 2, 8, 9], (req)),
+        Oct => arms2!(kusize, OctC, k, [1, 2, 7, 8], (req)),
+        Duo => arms2!(kusize, DuoC, k, [1, 2, 3, 4, 5, 15, 16, 17, 31, 32], (req)),
+        Uno => arms2!(kusize, UnoC, k, [1, 2, 7, 8, 9, 10, 16, 33, 63, 64], (req)),
     }
 }
 
@@ -589,7 +622,12 @@ pub fn kcall_minmax(id: CodecId, k: usize, spec: &SeqSpec) -> Option<R<(Option<K
         MDna => arms2!(kminmax, MDnaC, k, [1, 2, 3, 4, 5, 6, 7, 8, 9, 10, 11, 12, 13, 14, 15, 16], (spec)),
         MIupac => arms2!(kminmax, MIupacC, k, [1, 2, 3, 4, 5, 6, 7, 8, 9, 10, 11, 12], (spec)),
         Degen => arms2!(kminmax, DegenC, k, [1, 2, 3, 4, 5, 6, 7, 8, 12, 16, 24, 31, 32, 33, 48, 63, 64], (spec)),
-        Iupac | Amino | Tri | Sept | Oct => None,
+        Iupac | Amino => None,
+        Tri => arms2!(kminmax, TriC, k, [1, 2, 3, 10, 20, 21], (spec)),
+        Sept => arms2!(kminmax, SeptC, k, [1, 2, 8, 9], (spec)),
+        Oct => arms2!(kminmax, OctC, k, [1, 2, 7, 8], (spec)),
+        Duo => arms2!(kminmax, DuoC, k, [1, 2, 3, 4, 5, 15, 16, 17, 31, 32], (spec)),
+        Uno => arms2!(kminmax, UnoC, k, [1, 2, 7, 8, 9, 10, 16, 33, 63, 64], (spec)),
     }
 }
 
@@ -604,7 +642,11 @@ pub fn kcall_u64_from_int(id: CodecId, k: usize, i: u128, via_usize: bool) -> Op
         MDna => arms2!(ku64, MDnaC, k, [1, 2, 8, 15, 16], (i, via_usize)),
         MIupac => arms2!(ku64, MIupacC, k, [1, 2, 6, 11, 12], (i, via_usize)),
         Degen => arms2!(ku64, DegenC, k, [1, 2, 32, 63, 64], (i, via_usize)),
-        Tri | Sept | Oct => None,
+        Tri => arms2!(ku64, TriC, k, [1, 2, 21], (i, via_usize)),
+        Sept => arms2!(ku64, SeptC, k, [1, 9], (i, via_usize)),
+        Oct => arms2!(ku64, OctC, k, [1, 8], (i, via_usize)),
+        Duo => arms2!(ku64, DuoC, k, [1, 2, 16, 31, 32], (i, via_usize)),
+        Uno => arms2!(ku64, UnoC, k, [1, 2, 8, 64], (i, via_usize)),
     }
 }
 
